@@ -154,6 +154,14 @@ func init() {
 		l.Items = nil
 		return None, nil
 	}, 0, "clear() -> None -- remove all items from L")
+	ListType.Dict["copy"] = MustNewMethod("copy", func(self Object, args Tuple) (Object, error) {
+		l := self.(*List)
+		err := UnpackTuple(args, nil, "copy", 0, 0)
+		if err != nil {
+			return nil, err
+		}
+		return l.Copy(), nil
+	}, 0, "copy() -> list -- a shallow copy of L")
 }
 
 // Type of this List object
